@@ -17,7 +17,7 @@ import subprocess
 import sys
 from concurrent.futures import ThreadPoolExecutor
 
-WT = '/tmp/wt/seedtest'
+WT = '/tmp/wt/seedtry'  # tools/seed.py owns /tmp/wt/seedtest
 VERIF = os.path.dirname(os.path.dirname(os.path.abspath(__file__)))
 PROPS = [f'C{i:02d}' for i in range(1, 21)]
 
